@@ -141,6 +141,7 @@ def runCase : CaseFn := fun c => Id.run do
         let m := match o with | .err => "err" | .stopped => "stopped" | _ => "invalid"
         if m != ob then
           out := out.push (diff s!"model=<{m}>"); diverged := true
+    | "racesubstop" :: _ => pure ()   -- marker: a NewSubscription || Stop race starts here
     | ["role", i, "fast"] => fastLive := fastLive ++ [nat! i]
     | "role" :: _ => pure ()
     | ["emit", w] =>
